@@ -12,12 +12,19 @@ META = {
                  "AssetsHandler on a temporary asset root (panics recovered and reported)",
     "text": "Theorems C39_no_panic (no Range header and no file size makes the handler panic), C39_range_exact (every answer "
             "is 400, 416, the whole file, or 206 with body = file[start..min(stop,size-1)] and the matching Content-Range, "
-            "0 <= start <= last < size) and C39_contained (for every path spelling the file name used is root + at least one "
-            "segment with no '', '.', '..' segment) are proved for all inputs over the model of the repaired code; "
-            "C39_old_refuted keeps the witnesses of the four repaired defects. Model and property are compared with the real "
-            "handler on every run (paths x Range headers x GET/HEAD x cached/uncached). partial: symlinks under the root, "
-            "the OS file system, Markdown rendering / JS+CSS minification of the body, If-None-Match and the debugging-only "
-            "smartRangeLoading=false branch are observed or not covered, not proved",
+            "0 <= start <= last < size), C39_contained (for every path spelling the file name used is root + at least one "
+            "segment with no '', '.', '..' segment), C39_conditional (ETag/If-None-Match: a 304 is sent only without a Range "
+            "header, only if a trimmed comma-piece of the presented validator equals the tag of the content served now; a 200 "
+            "carries the tag of its own body and the body is the file; with a Range header no validator is consulted) and "
+            "C39_304_current (collision-free hash: a 304 means the client holds the current content) are proved for all inputs "
+            "over the model of the repaired code; C39_symlink_refuted refutes the resolved-confinement statement over the C26 tree "
+            "file-system model (a link under the root pointing outside is followed: known finding symlink-inside-root-followed, "
+            "re-confirmed on the real handler every run); C39_old_refuted keeps the witnesses of the four repaired defects. Model "
+            "and property are compared with the real handler on every run (paths x Range headers x If-None-Match x GET/HEAD x "
+            "cached/uncached). partial: resolved confinement fails for links under the root (finding; no positive theorem for "
+            "link-free trees), the OS file system, Markdown rendering / JS+CSS minification of the body, non-ASCII white space in "
+            "If-None-Match, cache staleness after a file changes on disk and the debugging-only smartRangeLoading=false branch "
+            "are not proved",
     "note": "Trusted: Coq kernel; strings.Split/ReplaceAll, strconv.ParseInt, filepath.Clean/Join as transliterated (tied by the "
             "correspondence run); harness/C39; props/C39.py.",
 }
@@ -236,7 +243,9 @@ def run(ck):
                       "garbage) x GET/HEAD x asset cached or not; path spellings ('..', '.', '//', relative, absolute, encoded, "
                       "directories, symlinks) with and without a range. distinct_nontrivial = distinct (file, header, method, cached) "
                       "cases answered 206 by the real handler")
-    ck.assume("file sizes fit int64 (zlen file <= MaxInt64)",
+    ck.assume("hash stands for hex(sha256) (any function for C39_conditional; collision-free for C39_304_current)",
+              "If-None-Match values are ASCII (strings.TrimSpace modelled for space, \\t \\n \\v \\f \\r only)",
+              "file sizes fit int64 (zlen file <= MaxInt64)",
               "the asset root is a clean absolute path (no '', '.', '..' segments), so HasPrefix(fn, root+'/') is the segment-wise proper-prefix test",
               "smartRangeLoading stays true (it is never assigned outside tests)")
     ck.trusted("harness/C39/c39_test.go (in-package overlay, httptest, recover around AssetsHandler)", "props/C39.py generators, oracle, comparison",
